@@ -139,7 +139,7 @@ def prelude(run, report=(), order="others_first"):
     (a Function cached with the sparsity of the first argument, a table shared between Euler groups and keyed only by
     the axis letters, ...) then corrupts the ordinary calls that follow, which the check sees.  The prelude's own
     results are compared with plain numpy; disagreements are reported as violations only by the checks whose property
-    covers them (`report` holds the clause families: "identity", "matrix", "convert", "adjoint"), otherwise they are only counted.
+    covers them (`report` holds the clause families: "identity", "matrix", "convert", "adjoint", "log"), otherwise they are only counted.
     order: "others_first" uses the user-built Euler groups before SO3EulerB321 (so that B321, which everything else
     uses, is the one that inherits their state), "b321_first" the other way round (C07 runs it in a second process)."""
     import cyecca.lie as L
@@ -238,6 +238,23 @@ def prelude(run, report=(), order="others_first"):
                     if np.max(np.abs(M - R)) > tol:
                         bad("convert", f"euler:{tname}:{seq}/to_Matrix", "Euler-angle matrix of a user-built Euler group differs from the product of its axis rotations",
                             {"angles": tri, "got": M.tolist(), "want": R.tolist()})
+                    try:                    # log and the conversions OUT of a user-built Euler group go through from_Euler
+                        w = num(G.elem(ca.DM(tri)).log().param).flatten(); tick()
+                        ang = math.acos(max(-1.0, min(1.0, (np.trace(R) - 1) / 2)))
+                        want = ang / (2 * math.sin(ang)) * np.array([R[2, 1] - R[1, 2], R[0, 2] - R[2, 0], R[1, 0] - R[0, 1]])
+                        if w.shape != (3,) or np.max(np.abs(w - want)) > tol:
+                            bad("log", f"euler:{tname}:{seq}/log", "log of an element of a user-built Euler group is not the rotation vector of its matrix",
+                                {"angles": tri, "got": w.tolist(), "want": want.tolist()})
+                    except NotImplementedError:
+                        pass
+                    for tgt, Gt in (("quat", L.SO3Quat), ("mrp", L.SO3Mrp), ("dcm", L.SO3Dcm)):
+                        try:
+                            Mt = num(Gt.from_Euler(G.elem(ca.DM(tri))).to_Matrix()); tick()
+                            if np.max(np.abs(Mt - R)) > tol:
+                                bad("convert", f"euler:{tname}:{seq}->{tgt}/from_Euler", "conversion of an element of a user-built Euler group changes the rotation",
+                                    {"angles": tri, "got": Mt.tolist(), "want": R.tolist()})
+                        except NotImplementedError:
+                            pass
                     try:                    # Ad_X y = vee(X y^ X^-1): on SO(3) that is the rotation matrix itself
                         A = num(G.elem(ca.DM(tri)).Ad()); tick()
                         if A.shape != (3, 3) or np.max(np.abs(A - R)) > tol:
